@@ -1,9 +1,9 @@
 (* The C11 codec models instantiated on the constants regenerated from /repo (Gen/*.v).
    Definitions only; these are the functions run by the correspondence driver and the ones the
    theorems of Props/C11.v speak about. *)
-From Coq Require Import NArith List.
+From Coq Require Import NArith ZArith List.
 From BU Require Import Base.Exn Base.Bytes Gen.Consts Gen.CodecConsts.
-From BU Require Model.Base58 Model.Base58Xmr Model.ConvertBits Model.Base32.
+From BU Require Model.Base58 Model.Base58Xmr Model.ConvertBits Model.Base32 Model.SS58.
 Import ListNotations.
 Open Scope N_scope.
 
@@ -26,3 +26,13 @@ Definition from_base32 (data : list N) : res (list N) :=
 Definition b32_encode := Base32.encode b32_alphabet.
 Definition b32_encode_no_padding := Base32.encode_no_padding b32_alphabet b32_pad_char.
 Definition b32_decode := Base32.decode b32_alphabet b32_pad_char.
+
+(* ---- SS58Encoder / SS58Decoder (Base58 with the Bitcoin alphabet; blake2b-512 is an oracle) ---- *)
+Definition ss58_encode (blake2b512 : list N -> list N) :=
+  SS58.encode b58_alph_btc b58_radix ss58_simple_max ss58_format_max ss58_reserved ss58_data_len ss58_cklen
+              ss58_ck_prefix blake2b512.
+Definition ss58_decode (blake2b512 : list N -> list N) :=
+  SS58.decode b58_alph_btc b58_radix ss58_simple_max ss58_reserved ss58_data_len ss58_cklen
+              ss58_ck_prefix blake2b512.
+Definition ss58_format_bytes := SS58.format_bytes ss58_simple_max.
+Definition ss58_parse_header := SS58.parse_header ss58_simple_max.
